@@ -182,6 +182,14 @@ def run_case(case, tier):
     except Exception as e:
         res.update(verdict="inconclusive", reason="refused", refusal=P.refusal_key(e))
         return res
+    if getattr(program, "abstracted_const_store", {}):
+        # conditions Polar replaced by probability symbols: they need a value, as in C01; outside the oracle's shapes nothing is decided
+        av = K.abstraction_values(program, prog, params)
+        if av is None:
+            res.update(verdict="inconclusive", reason="abstraction-outside-oracle")
+            return res
+        values.update(av)
+        res["events"]["abstracted-conditions"] = len(av)
     from cli.common import get_moment_given_termination
     from cli.actions.goals_action import GoalsAction
     from cli import ArgumentParser
